@@ -14,7 +14,7 @@ RULE = (
     "(A) strings (each also as an external FunctionReference, which must report exactly the name, cluster, module, function and version it was built from): cluster over letters, digits and . _ - + = : # @ without '::' (or no cluster), module = dotted identifiers, function = identifier or dotted qualname, "
     "version over the same alphabet incl. '::' (or none): parse_qualified_name(build(parts)) == parts. (B) store: the same cluster/version strings realised on a memento function in a fresh forked process, "
     "called twice (second call must be a hit), queried with memento() and listed with list_mementos() / list_memoized_functions() on filesystem and memory backends. "
-    "(C) evolutions: a caller with a pinned explicit version calls an automatically-versioned callee; after the caller is memoized the callee is edited, re-versioned explicitly, renamed, removed, moved to another cluster, stripped of its decorator (name now bound to a plain function) or replaced by a non-callable object under the same name, "
+    "(C) evolutions: a caller with a pinned explicit version calls an automatically-versioned callee; after the caller is memoized the callee is edited, re-versioned explicitly (also from one explicit version containing '#' and ':' to another), renamed, removed, moved to another cluster, stripped of its decorator (name now bound to a plain function) or replaced by a non-callable object under the same name, "
     "in the default or a named cluster, delivered in-process or by restart against the same store. Oracle: no read of stored metadata raises; the caller's entry is served (its body does not run) with the stored value; "
     "memento() is found; the stored invocation of the callee (and a stored function-valued argument referring to it) is reported external exactly when that callee version no longer exists (asserted for edit / re-version / rename / remove); listings contain the stored names. "
     "Non-trivial: A/B - a separator character (: # . @) inside cluster or version; C - an evolution that makes a referenced version vanish. Distinct by case."
@@ -153,11 +153,15 @@ def _prog_c(case, evolved):
               "base": {"e": "lit", "v": 3}, "body": {"e": "add", "a": {"e": "x"}, "b": {"e": "lit", "v": 1}}}
     caller_body = {"e": "add", "a": {"e": "call", "f": "g"}, "b": {"e": "lit", "v": 10}}
     defs = [callee]
+    if case["evolution"] == "reversion-hash":
+        callee["version"] = "r#1:a"     # the version that will vanish contains '#' and ':'
     ev = case["evolution"] if evolved else None
     if ev == "edit":
         callee["body"]["b"]["v"] = 2
     elif ev == "reversion":
         callee["version"] = "pinned#1"
+    elif ev == "reversion-hash":
+        callee["version"] = "r#2:a"
     elif ev == "rename":
         callee["name"] = "g2"
         caller_body["a"]["f"] = "g2"
@@ -209,11 +213,30 @@ def exec_c(case, scratch):
                               symptom="read-raised", op="list_mementos(fn argument)", exc=fl["exc"], where=fl.get("where"))
             elif len(fl["ok"]) != 1 or (case["evolution"] != "recluster" and fl["ok"][0][1] != old_callee):
                 out.violation("%s: stored entry with function argument lists as %r, it was stored with %r" % (lab, fl["ok"], old_callee), symptom="listing-differs")
-            elif r is r1 and case["evolution"] in ("edit", "reversion", "rename", "remove", "unwrap", "rebind-object") and fl["ok"][0][2] is not True:
+            elif r is r1 and case["evolution"] in ("edit", "reversion", "reversion-hash", "rename", "remove", "unwrap", "rebind-object") and fl["ok"][0][2] is not True:
                 out.violation("%s: function argument referring to vanished version %r is not reported external" % (lab, old_callee),
                               symptom="vanished-not-external", evolution=case["evolution"])
         if not out.violations:
             _common_probes(out, r1, want_qn, "after %s of the callee (%s)" % (case["evolution"], case["delivery"]), expect_run_first=False)
+        if not out.violations:
+            ex = r1.get("external_refs") or {}
+            if "exc" in ex:
+                out.violation("after %s: inspecting the external references handed out by list_memoized_functions() raised %s: %s (at %s)" % (
+                    case["evolution"], ex["exc"], ex["msg"], ex.get("where")), symptom="read-raised", op="external-stub", exc=ex["exc"], where=ex.get("where"))
+            for e_ in ex.get("ok", []):
+                # (the cluster name may itself contain '#': strip the known cluster prefix, module and function have none)
+                bare = e_["qn"]
+                for cl_ in sorted({c for c in (case["cluster"], "other") if c}, key=len, reverse=True):
+                    if bare.startswith(cl_ + "::"):
+                        bare = bare[len(cl_) + 2:]
+                        break
+                want_v = bare.split("#", 1)[1] if "#" in bare else None
+                if e_["stub_version"] != want_v or e_["clone_qn"] != e_["qn"]:
+                    out.violation("after %s: stored function %r is handed out as an external reference whose stub reports version %r and whose force_local() clone is named %r" % (
+                        case["evolution"], e_["qn"], e_["stub_version"], e_["clone_qn"]), symptom="external-stub-name-differs", version_has_hash="#" in (want_v or ""))
+                elif e_["via_stub"] != e_["via_clone"]:
+                    out.violation("after %s: %r lists %d mementos through its external stub but %d through a force_local() clone of it" % (
+                        case["evolution"], e_["qn"], e_["via_stub"], e_["via_clone"]), symptom="external-stub-listing-differs")
         if not out.violations:
             if r1["trace1"]:
                 out.violation("after %s (%s): the pinned caller ran again: %r" % (case["evolution"], case["delivery"], r1["trace1"]),
@@ -225,7 +248,7 @@ def exec_c(case, scratch):
                 pass  # the stored reference resolves to the moved function; only "nothing raises, caller served" is asserted
             elif [i[0] for i in inv] != [old_callee]:
                 out.violation("after %s: stored invocations %r, the caller called %r" % (case["evolution"], inv, old_callee), symptom="invocations-differ")
-            elif case["evolution"] in ("edit", "reversion", "rename", "remove", "unwrap", "rebind-object"):
+            elif case["evolution"] in ("edit", "reversion", "reversion-hash", "rename", "remove", "unwrap", "rebind-object"):
                 if inv[0][1] is not True:
                     out.violation("after %s (%s): reference to vanished callee version %r is not reported external" % (case["evolution"], case["delivery"], old_callee),
                                   symptom="vanished-not-external", evolution=case["evolution"])
@@ -246,7 +269,7 @@ def execute(case, scratch):
         out.nontrivial = _special(case["cluster"]) or _special(case["version"])
     else:
         out = exec_c(case, scratch)
-        out.nontrivial = case["evolution"] in ("edit", "reversion", "rename", "remove", "unwrap", "rebind-object")
+        out.nontrivial = case["evolution"] in ("edit", "reversion", "reversion-hash", "rename", "remove", "unwrap", "rebind-object")
     out.labels = ["part:" + part] + (["version-has-colon"] if ":" in (case.get("version") or "") else []) + \
         (["version-has-hash"] if "#" in (case.get("version") or "") else []) + \
         (["cluster-has-sep"] if any(c in (case.get("cluster") or "") for c in ":#") else []) + \
@@ -284,7 +307,7 @@ def run_shard(ctx):
     dl = (lambda: (ctx.deadline - time.time()) if ctx.deadline else None)
     core.hyp_search(a, ex, stats, max_examples=100000 if thorough else 4000, seed=core.hash64(ctx.seed, ID, "A", ctx.shard), findings=ctx.findings, deadline_s=dl())
     core.hyp_search(b, ex, stats, max_examples=3000 if thorough else 60, seed=core.hash64(ctx.seed, ID, "B", ctx.shard), findings=ctx.findings, deadline_s=dl())
-    # part C is a small finite matrix: enumerate it (5 clusters x 8 evolutions x 2 deliveries)
-    cs = [{"part": "C", "cluster": cl, "evolution": ev, "delivery": dv} for cl in (None, "c", "a:b", "x#y", "c1@p") for ev in ("none", "edit", "reversion", "rename", "remove", "recluster", "unwrap", "rebind-object") for dv in ("restart", "inproc")]
+    # part C is a small finite matrix: enumerate it (5 clusters x 9 evolutions x 2 deliveries)
+    cs = [{"part": "C", "cluster": cl, "evolution": ev, "delivery": dv} for cl in (None, "c", "a:b", "x#y", "c1@p") for ev in ("none", "edit", "reversion", "reversion-hash", "rename", "remove", "recluster", "unwrap", "rebind-object") for dv in ("restart", "inproc")]
     core.enum_search(cs, ex, stats, findings=ctx.findings, shard=ctx.shard, nshards=ctx.nshards, deadline_s=dl())
     return stats
